@@ -1,6 +1,6 @@
 (* Judges for C07 (parser acceptance and reporting) and C03 (self-certifying DIDs). *)
 From Coq Require Import ZArith NArith String List Bool.
-From Sidetree Require Import Json.Json Sidetree.Protocol Sidetree.Composer Sidetree.Parser Harness.Runner Harness.PatchCases.
+From Sidetree Require Import Json.Json Sidetree.Protocol Sidetree.Composer Sidetree.Validator Sidetree.Parser Harness.Runner Harness.PatchCases.
 Import ListNotations.
 Open Scope string_scope.
 
@@ -51,7 +51,9 @@ Definition judge_c07 (c : c07case) : verdict :=
 
 Record variant := mk_variant { va_bytes : string; va_impl : option (string * string); va_same : bool; va_must_refuse : bool }.
 
-Inductive c03case := mk_c03 (oracle : url_table) (cfg : protocol) (exp_suffix : string) (variants : list variant).
+Inductive c03case := mk_c03 (oracle : url_table) (cfg : protocol) (exp_suffix : string) (variants : list variant)
+                               (order_pairs : list (variant * variant))
+                               (lf_tail : string) (lf : list (string * bool)).
 
 Fixpoint judge_variants (t : url_table) (cfg : protocol) (esfx : string) (idx : nat) (l : list variant) : verdict :=
   match l with
@@ -77,5 +79,64 @@ Fixpoint judge_variants (t : url_table) (cfg : protocol) (esfx : string) (idx : 
         if negb agree then Mismatch (10 * idx + 2) else judge_variants t cfg esfx (S idx) r
   end.
 
+(* two member orders of one request: the same verdict and the same suffix.  When they differ and
+   the request carries two names equal up to ASCII case at a struct-decoded level (request,
+   suffix data, delta), this is the listed finding 30 of C03; any other difference is a failure. *)
+Definition fold_distinct (m : obj) : bool := nodup_str (map (fun kv => fold_name (fst kv)) m).
+
+Definition struct_levels_b (bytes : string) : bool :=
+  match top_object bytes with
+  | Some m =>
+      let inner name := match field name m with Some (JObj x) => fold_distinct x | _ => true end in
+      andb (fold_distinct m) (andb (inner "suffixData") (inner "delta"))
+  | None => true
+  end.
+
+Definition variant_agrees (t : url_table) (cfg : protocol) (v : variant) : bool :=
+  match parse cfg (uri_ok_of t) (url_norm_of t) (fun _ => true) (fun _ _ => true) "did:ns" (va_bytes v), va_impl v with
+  | Some (_, sfx, id, _), Some (sfx', id') => andb (String.eqb sfx sfx') (String.eqb id id')
+  | None, None => true
+  | _, _ => false
+  end.
+
+Fixpoint judge_pairs (t : url_table) (cfg : protocol) (idx : nat) (l : list (variant * variant)) : verdict :=
+  match l with
+  | [] => Pass
+  | (a, b) :: r =>
+      if negb (andb (variant_agrees t cfg a) (variant_agrees t cfg b)) then Mismatch (1000 + idx)
+      else
+        let same := match va_impl a, va_impl b with
+                    | Some (s1, i1), Some (s2, i2) => andb (String.eqb s1 s2) (String.eqb i1 i2)
+                    | None, None => true
+                    | _, _ => false
+                    end in
+        if same then judge_pairs t cfg (S idx) r
+        else if negb (struct_levels_b (va_bytes a)) then Known 30
+        else SpecFail (1000 + idx)
+  end.
+
+(* long-form DIDs made of this request's canonical bytes as initial state: whatever resolves must
+   end with ":" suffix ":" state - the segment in front of the initial state is exactly the
+   suffix of the request (a handler may serve namespaces with further segments) *)
+Definition ends_with (s t : string) : bool :=
+  andb (Nat.leb (String.length t) (String.length s))
+       (String.eqb (substring (String.length s - String.length t) (String.length t) s) t).
+
+Fixpoint judge_lf (tail : string) (idx : nat) (l : list (string * bool)) : verdict :=
+  match l with
+  | [] => Pass
+  | (did, resolved) :: r =>
+      if andb resolved (negb (ends_with did tail)) then SpecFail (2000 + idx) else judge_lf tail (S idx) r
+  end.
+
 Definition judge_c03 (c : c03case) : verdict :=
-  match c with mk_c03 t cfg esfx vs => judge_variants t cfg esfx 0 vs end.
+  match c with
+  | mk_c03 t cfg esfx vs ps exact lf =>
+      match judge_variants t cfg esfx 0 vs with
+      | Pass => match judge_pairs t cfg 0 ps with
+                | Pass => judge_lf exact 0 lf
+                | v => v
+                end
+      | v => v
+      end
+  end.
